@@ -153,3 +153,6 @@ OBLIGATIONS = [
          encodes=['UploadSubmissionTask._get_upload_task_tag', 'stores_body_in_memory', 'get_download_task_tag'],
          assumptions=[]),
 ]
+
+from harness.corace import OB_SEMP, sliding_window_preempt  # noqa: E402
+OBLIGATIONS += [dict(OB_SEMP, id='C11.5')]
